@@ -21,7 +21,7 @@ ASSUMPTIONS = [
     'stop() from a second thread is given no exit code (SystemExit would be raised in that thread, not in run()\'s caller)',
     'a harness generate_events handler keeps the idle wait from blocking and ends a run that ignores stop() after 400 further iterations',
 ]
-REQUIRED = ['sched_stop_runs_to_completion_at_a_loop_preemption_point', 'stop_in_started', 'stop_mid_chain', 'stop_in_generator_step', 'stop_via_systemexit', 'stop_via_keyboardinterrupt',
+REQUIRED = ['sched_stop_runs_to_completion_at_a_loop_preemption_point', 'sched_stopper_preempted_while_loop_sleeps', 'stop_in_started', 'stop_mid_chain', 'stop_in_generator_step', 'stop_via_systemexit', 'stop_via_keyboardinterrupt',
             'stop_from_second_thread', 'exit_code_given', 'events_fired_after_stop', 'stopped_handler_fires', 'queued_before_run',
             'second_cycle', 'stop_when_not_running', 'stop_of_registered_child_while_root_runs', 'systemexit_while_not_running',
             'several_exits_in_one_run', 'codeless_exit_next_to_a_coded_one']
@@ -356,14 +356,19 @@ def gen_case(rng):
 
 
 def plan(tier, seed):
-    sched = [{'kind': 'sched', 'lo': lo, 'hi': lo + 400, 'step': 10 if tier == 'quick' else 3, 'ks': [4, 5, 6] if tier == 'quick' else [2, 3, 4, 5, 6, 7, 9]}
+    sched = [{'kind': 'sched', 'lo': lo, 'hi': lo + 400, 'step': 10 if tier == 'quick' else 3, 'ks': [4, 6, 8] if tier == 'quick' else list(range(2, 16))}
              for lo in (40, 440, 840, 1240)]
     # the loop thread pre-empted at EVERY yield point of its way into the idle wait (nothing else to do: no task), the second thread's
     # stop() then runs to completion (and, thorough, is itself pre-empted): run() must still end
     for mech in ('fallback', 'Select') if tier == 'quick' else ('fallback', 'Select', 'Poll', 'EPoll'):
         scn = {'mech': mech, 'firers': 1, 'events': 1, 'task': False}
-        sched += [{'kind': 'sched', 'scn': scn, 'lo': lo, 'hi': lo + 250, 'step': 1, 'ks': ['INF'] if tier == 'quick' else ['INF', 3, 5, 8]}
-                  for lo in (0, 250, 500, 750)]
+        sched += [{'kind': 'sched', 'scn': scn, 'lo': lo, 'hi': lo + 250, 'step': 1, 'ks': ['INF']} for lo in (0, 250, 500, 750)]
+        # ... the stopper pre-empted after each of the first yield points of stop() (before / between / after its two steps) with the loop
+        # thread somewhere in its iteration
+        sched += [{'kind': 'sched', 'scn': scn, 'lo': lo, 'hi': lo + 500, 'step': 7 if tier == 'quick' else 2, 'ks': list(range(3, 11))} for lo in (0, 500)]
+        # ... and the other way round: the loop sleeps in its idle wait, the second thread's stop() is pre-empted after EVERY one of its
+        # yield points (in particular between queueing `stopped` and clearing the running flag), the loop runs until it blocks again
+        sched += [{'kind': 'sched', 'scn': scn, 'lo': 0, 'hi': 0, 'step': 1, 'a1s': ['INF'], 'ks': list(range(k0, k0 + 40))} for k0 in (1, 41, 81, 121)]
     if tier == 'quick':
         return [{'kind': 'corpus'}] + [{'kind': 'random', 'seed': seed * 1000 + i, 'n': 40} for i in range(15)] + sched
     return [{'kind': 'corpus'}] + [{'kind': 'random', 'seed': seed * 100000 + i, 'n': 700} for i in range(32)] + sched
@@ -449,11 +454,12 @@ def run_sched_batch(spec):
     def one(a1, k):
         plan = [('L', first_tick + 5), ('F0', c03.INF), ('L', a1), ('S', k), ('L', c03.INF)]
         res = c03.run_schedule(scn, plan=plan)
-        preempted = any(sw[0] == 'S' and sw[1] == 'L' and ':' in sw[2] for sw in res['switches'])
+        preempted = any(sw[0] == 'S' and sw[1] == 'L' and ':' in sw[2] and not sw[2].startswith('finish:') for sw in res['switches'])
         return plan, res, preempted
     shown = 0
     hi = min(spec['hi'], len(base['record']['L']) + 5)
-    for a1 in range(spec['lo'], hi, spec['step']):
+    a1s = [c03.INF if x == 'INF' else x for x in spec['a1s']] if spec.get('a1s') else range(spec['lo'], hi, spec['step'])
+    for a1 in a1s:
         for k in spec['ks']:
             k = c03.INF if k == 'INF' else k
             plan, res, preempted = one(a1, k)
@@ -473,6 +479,8 @@ def run_sched_batch(spec):
                 continue
             if k == c03.INF:
                 b.reached('sched_stop_runs_to_completion_at_a_loop_preemption_point')
+            if a1 == c03.INF and preempted:
+                b.reached('sched_stopper_preempted_while_loop_sleeps')
             b.ok('RUN_ENDS')
             b.case(case, nontrivial=preempted, distinct_key=[list(x[:3]) for x in res['switches']])
             b.reached('stop_from_second_thread')
